@@ -59,6 +59,9 @@ impl MT200 {
         // Parse optional Field 72
         let field_72 = parser.parse_optional_field::<Field72>("72")?;
 
+        // Reject content left after the last field of the message
+        verify_parser_complete(&parser)?;
+
         Ok(MT200 {
             field_20,
             field_32a,
